@@ -75,3 +75,25 @@ Lemma guard_inhabited :
   equiv_onb (E_f 10) (flatten a ++ flatten b) = true /\
   unite_f 10 [a; b] = VUnion [w_int; w_list1; w_tup (VUnion [w_int; w_str]); w_td w_A; w_str].
 Proof. vm_compute. repeat split; reflexivity. Qed.
+
+(* ---- statements that are NOT proved here; they are decided only by the
+   differential check (harness/c14.py evaluates them on the real code and the
+   model on every generated case).  Kept as Definitions so the claim is visible. ---- *)
+Definition unite_assoc_statement : Prop :=
+  forall n a b c, flat a = true -> flat b = true -> flat c = true ->
+  fits n (VAnyUnreachable :: flatten a ++ flatten b ++ flatten c) = true ->
+  equiv_onb (E_f n) (VAnyUnreachable :: flatten a ++ flatten b ++ flatten c) = true ->
+  veq_f (S n) (unite_f n [unite_f n [a; b]; c]) (unite_f n [a; unite_f n [b; c]]) = true.
+
+Definition subst_id_on_closed_statement : Prop :=
+  forall n m v, closed v = true -> canonical n v -> subst_f n m v = v.
+
+Definition subst_eliminates_statement : Prop :=
+  forall n m v tv r, lookup tv m = Some r -> (forall k x, In (k, x) m -> closed x = true) ->
+  occurs tv (subst_f n m v) = false.
+
+Definition subst_commutes_unite_statement : Prop :=
+  forall n m a b, flat a = true -> flat b = true ->
+  equiv_onb (E_f n) (flatten a ++ flatten b ++ flatten (subst_f n m a) ++ flatten (subst_f n m b)) = true ->
+  has_nested_annot (subst_f n m (unite_f n [a; b])) = false ->
+  veq_f (S n) (subst_f n m (unite_f n [a; b])) (unite_f n [subst_f n m a; subst_f n m b]) = true.
